@@ -749,7 +749,7 @@ func tailN(s string, n int) string {
 
 func cutsFor(synced, size int64, dense bool) []int64 {
 	var cuts []int64
-	if size-synced <= 64 || dense && size-synced <= 400 {
+	if size-synced <= 64 || dense && size-synced <= 128 {
 		for c := synced; c < size; c++ {
 			cuts = append(cuts, c)
 		}
@@ -1086,7 +1086,7 @@ func genCrash(focus, tier string, seed int64) []core.Case {
 				c.N["images"] = 1
 				c.N["seqevery"] = 16
 				if !quick {
-					c.N["seqevery"] = 8
+					c.N["seqevery"] = 12
 				}
 				if !quick {
 					c.N["dense"] = 1
@@ -1195,7 +1195,7 @@ func init() {
 		Gen:      func(tier string, seed int64) []core.Case { return genCrash("C03", tier, seed) },
 		Run:      func(c core.Case) core.Result { return runCrashCase(c, "C03") },
 		Post:     crashPost("C03"),
-		SelfTest: crashSelfTest, BatchSize: 2, GoMaxProcs: 2, Parallel: 10, CaseTimeout: 600e9,
+		SelfTest: crashSelfTest, BatchSize: 2, GoMaxProcs: 2, Parallel: 10, CaseTimeout: 2400e9,
 		MinNonTrivial: map[string]int{"quick": 15, "thorough": 200},
 		Exhaustive:    func(tier string) bool { return false },
 		Assumptions: []string{"process-crash model: every completed file-system operation persists; an operation in flight in another goroutine at the kill may or may not have completed",
@@ -1208,17 +1208,17 @@ func init() {
 		Gen:      func(tier string, seed int64) []core.Case { return genCrash("C04", tier, seed) },
 		Run:      func(c core.Case) core.Result { return runCrashCase(c, "C04") },
 		Post:     crashPost("C04"),
-		SelfTest: crashSelfTest, BatchSize: 2, GoMaxProcs: 2, Parallel: 10, CaseTimeout: 600e9,
+		SelfTest: crashSelfTest, BatchSize: 2, GoMaxProcs: 2, Parallel: 10, CaseTimeout: 2400e9,
 		MinNonTrivial: map[string]int{"quick": 15, "thorough": 200},
 		Assumptions:   []string{"process-crash model as C03", "transactions acknowledged before the crash are all-or-nothing by the C03 rule (all of their writes visible)"},
 	})
 	core.Register(&core.Check{
 		Prop: "C14", Level: "fault_enumeration",
-		Rule: common + "; the hook handler tracks the fsynced length of every file (rename carries it over); at every crash point that has a file with bytes beyond its synced length, images are built in which that file is cut to every length in [synced, size) (gap <= 64 bytes, thorough <= 400) or to {synced, +1, +7..9, middle, -9, -8, -1}, plus one image with all such files cut to their synced length; each image is recovered and judged like C03 without the atomicity rule; at every 16th (quick) / 8th (thorough) crash point the recovery is additionally killed before each of its own operations and the tails left unsynced by the recovery are cut; evidence counts crash points plus images (evaluations); non-trivial = image in which >=1 byte was actually cut; distinct by (program, kill index, file, cut length)",
+		Rule: common + "; the hook handler tracks the fsynced length of every file (rename carries it over); at every crash point that has a file with bytes beyond its synced length, images are built in which that file is cut to every length in [synced, size) (gap <= 64 bytes, thorough <= 128) or to {synced, +1, +7..9, middle, -9, -8, -1}, plus one image with all such files cut to their synced length; each image is recovered and judged like C03 without the atomicity rule; at every 16th (quick) / 12th (thorough) crash point the recovery is additionally killed before each of its own operations and the tails left unsynced by the recovery are cut; evidence counts crash points plus images (evaluations); non-trivial = image in which >=1 byte was actually cut; distinct by (program, kill index, file, cut length)",
 		Gen:      func(tier string, seed int64) []core.Case { return genCrash("C14", tier, seed) },
 		Run:      func(c core.Case) core.Result { return runCrashCase(c, "C14") },
 		Post:     crashPost("C14"),
-		SelfTest: crashSelfTest, BatchSize: 2, GoMaxProcs: 2, Parallel: 10, CaseTimeout: 600e9,
+		SelfTest: crashSelfTest, BatchSize: 2, GoMaxProcs: 2, Parallel: 10, CaseTimeout: 2400e9,
 		MinNonTrivial: map[string]int{"quick": 10, "thorough": 150},
 		Assumptions:   []string{"truncation of unsynced suffixes only (no bit rot, no reordering of directory operations: create/rename/remove are ordered and durable)", "a file's synced length is its size at its last fsync"},
 	})
